@@ -12,6 +12,9 @@ decidable well-formedness predicates, then instantiated on the concrete handler 
 * `success`          a script that contains the three writes (and whose guards pass) ends the
                      fault-free run with `ok`, credentials written in both places, `has_paired`;
 * `stored_only_on_success` anything written ⇒ no applicable fault was injected;
+* `pins_equal_success`, `pins_differ_atomic`, `dmap_pins_differ`: the PIN is a parameter of the
+  run (`runPins`): for EVERY value (0 = "0000" included) equal PINs give the fault-free run,
+  different PINs the wrong-PIN fault with the failure clause;
 * per handler: `wellFormed` by `decide`, and the instantiated statements.
 * DMAP signals failure only through `has_paired = False` (finish() returns normally):
   `handlers_fault_atomic_counterexample`, `handlers_fault_atomic_partial`, `dmap_fault_no_effect`.
@@ -279,6 +282,42 @@ theorem handlers_success : ∀ p ∈ handlers, run p.2 none = (Outcome.ok, St.do
   apply success
   revert p
   decide
+
+/-! ## The PIN as a parameter: every value, boundary values included -/
+
+theorem proofIndex_app (s : List Step) (i : Nat) (h : proofIndex? s = some i) :
+    Fault.wrongPin ∈ appAt s i := by
+  have := List.find?_some h
+  simpa using this
+
+/-- **C08, right PIN.**  Whatever the PIN is (0 = "0000" included): if the supplied PIN equals
+    the expected one the exchange is the fault-free one. -/
+theorem pins_equal_success (s : List Step) (hc : commits s = true) (p : Nat) :
+    runPins s p p = (Outcome.ok, St.done) := by
+  simp [runPins, pinFault, success s hc]
+
+/-- **C08, wrong PIN.**  For every well-formed script and EVERY pair of different PIN values:
+    a pairing/connection error, nothing written, `has_paired` false. -/
+theorem pins_differ_atomic (s : List Step) (hwf : wellFormed s = true) (i : Nat)
+    (hi : proofIndex? s = some i) (expected typed : Nat) (hne : expected ≠ typed) :
+    (runPins s expected typed).2 = St.init ∧
+    ∃ e, (runPins s expected typed).1 = Outcome.error e ∧ (e = ErrClass.pairing ∨ e = ErrClass.connection) := by
+  have h := fault_atomic s hwf i Fault.wrongPin (proofIndex_app s i hi)
+  simpa [runPins, pinFault, hne, hi, FaultAtomic] using h
+
+/-- every raising handler has a proof-carrying await point -/
+theorem raising_proofIndex : ∀ s ∈ raising, (proofIndex? s).isSome = true := by decide
+
+/-- DMAP, wrong PIN of any value: nothing written, not paired (and, the known finding, silent) -/
+theorem dmap_pins_differ (expected typed : Nat) (hne : expected ≠ typed) :
+    runPins dmap expected typed = (Outcome.silent, St.init) := by
+  have hi : proofIndex? dmap = some 0 := by decide
+  have := dmap_fault_no_effect 0 Fault.wrongPin (by decide)
+  simpa [runPins, pinFault, hne, hi] using this
+
+example : runPins mrp 0 0 = (Outcome.ok, St.done) ∧
+    runPins mrp 0 1 = (Outcome.error ErrClass.pairing, St.init) ∧
+    runPins dmap 0 9999 = (Outcome.silent, St.init) ∧ proofIndex? mrp = some 3 := by decide
 
 /-! ## The two fixed defects, as scripts of the pinned tree -/
 
